@@ -259,6 +259,8 @@ def run(tier, seed):
     rep.notes["model_mismatches"] = len(f)
     rep.notes["programs"] = len(progs)
     rep.notes["block_outcomes"] = len(BLOCKS)
+    import kwprobe
+    kwprobe.probe(rep, "factory", "contextmanager:kwargs")
     if not proofs_ok:
         rep.violation("proof-broken", {"broken": rep.notes.get("broken_file", "?"), "log": rep.notes.get("build_log_tail", "")[-1500:]}, no_input=True)
     return rep.finish()
